@@ -17,6 +17,7 @@ import (
 	"sync"
 	"sync/atomic"
 
+	"github.com/KevoDB/kevo/pkg/config"
 	"github.com/KevoDB/kevo/pkg/memtable"
 	"pgregory.net/rapid"
 
@@ -38,8 +39,11 @@ type RAct struct {
 
 // CCase is a concurrent case.
 type CCase struct {
+	// Pool: the writer goes through a MemTablePool (put / del / switch) and
+	// the readers call MemTablePool.Get; otherwise one bare MemTable.
+	Pool  bool     `json:"pool,omitempty"`
 	Keys  [][]byte `json:"keys"`
-	W     []Op     `json:"w"`     // writer history: put / del / imm
+	W     []Op     `json:"w"`     // writer history: put / del / imm (table) or switch (pool)
 	Burst int      `json:"burst"` // the writer yields after every Burst steps (0 = never)
 	// Prefill: this many leading steps of W are applied before the readers start
 	Prefill int `json:"prefill"`
@@ -68,9 +72,17 @@ func genCCase(t *rapid.T) CCase {
 		return g
 	})
 	c.W = resolveOps(&seqState{}, rapid.SliceOfN(wstep, 150, 700).Draw(t, "w"))
+	c.Pool = rapid.IntRange(0, 4).Draw(t, "pool") == 4
+	if c.Pool {
+		// the pool switches tables a few times during the history
+		for _, pct := range rapid.SliceOfN(rapid.IntRange(5, 95), 0, 4).Draw(t, "switchpct") {
+			at := len(c.W) * pct / 100
+			c.W = append(c.W[:at], append([]Op{{Op: "switch"}}, c.W[at:]...)...)
+		}
+	}
 	// one case in three freezes the table somewhere in the last two thirds of
 	// the history; the writer keeps writing (those writes must be ignored)
-	if rapid.IntRange(0, 2).Draw(t, "hasimm") == 2 {
+	if !c.Pool && rapid.IntRange(0, 2).Draw(t, "hasimm") == 2 {
 		at := len(c.W) * rapid.IntRange(33, 98).Draw(t, "immpct") / 100
 		c.W = append(c.W[:at], append([]Op{{Op: "imm"}}, c.W[at:]...)...)
 	}
@@ -96,7 +108,7 @@ func genCCase(t *rapid.T) CCase {
 		changed := false
 		for i := range c.W {
 			o := &c.W[i]
-			if o.Op == "imm" {
+			if o.Op == "imm" || o.Op == "switch" {
 				continue
 			}
 			if o.Seq < maxSeq[o.K] {
@@ -142,6 +154,15 @@ func genCCase(t *rapid.T) CCase {
 		}
 		return a
 	})
+	if c.Pool {
+		ract = rapid.Custom(func(t *rapid.T) RAct {
+			a := RAct{A: "pget", Y: rapid.SampledFrom([]int{0, 0, 0, 1, 3}).Draw(t, "y"), K: rapid.IntRange(0, nk-1).Draw(t, "k")}
+			if rapid.IntRange(0, 7).Draw(t, "misc") == 7 {
+				a.A = "misc"
+			}
+			return a
+		})
+	}
 	c.R = rapid.SliceOfN(rapid.SliceOfN(ract, 1, 5), 1, 8).Draw(t, "readers")
 	return c
 }
@@ -229,6 +250,9 @@ func classifyConc(c *CCase) []string {
 			imm = true
 			continue
 		}
+		if o.Op == "switch" {
+			continue
+		}
 		if m, ok := lastSeq[o.K]; ok && o.Seq <= m {
 			nonmono = true
 		}
@@ -256,6 +280,9 @@ func classifyConc(c *CCase) []string {
 	}
 	if len(c.R) >= 4 {
 		classes = append(classes, "conc:readers>=4")
+	}
+	if c.Pool {
+		classes = append(classes, "conc:pool_get_during_switches")
 	}
 	return classes
 }
@@ -316,7 +343,7 @@ func validCCase(c *CCase) bool {
 		return false
 	}
 	for _, o := range c.W {
-		if o.Op != "put" && o.Op != "del" && o.Op != "imm" {
+		if o.Op != "put" && o.Op != "del" && !(o.Op == "imm" && !c.Pool) && !(o.Op == "switch" && c.Pool) {
 			return false
 		}
 	}
@@ -344,6 +371,9 @@ func runConc(c *CCase) (*CFail, cstats) {
 	var st cstats
 	if !validCCase(c) {
 		return &CFail{V: &viol{"harness/invalid-case", "malformed concurrent case"}}, st
+	}
+	if c.Pool {
+		return runConcPool(c)
 	}
 	v, immStep := concView(c)
 	tg := targets(c.Keys)
@@ -526,6 +556,190 @@ func runConc(c *CCase) (*CFail, cstats) {
 		st.overlapping += overl[ri]
 		st.actions += nact[ri]
 		st.probes += nprobe[ri]
+	}
+	return fail, st
+}
+
+// ---------------------------------------------------------------- pool variant
+
+// pans is the model's MemTablePool.Get answer for one key from history
+// position step on: the winner (highest sequence number, latest insertion
+// among equal numbers) of the key's entries in the NEWEST table that contains
+// the key. All writes go to the active table, so that table is the one the
+// key's latest write went to.
+type pans struct {
+	step int
+	d    desc
+}
+
+func poolAnswers(c *CCase) map[int][]pans {
+	out := map[int][]pans{}
+	best := map[int]desc{} // winner per key in the active table
+	for i := range c.W {
+		o := &c.W[i]
+		step := i + 1
+		if o.Op == "switch" {
+			best = map[int]desc{}
+			continue
+		}
+		var d desc
+		if o.Op == "del" {
+			d = desc{o.K, o.Seq, true, ""}
+		} else {
+			d = desc{o.K, o.Seq, false, string(valueBytes(step, o.VL))}
+		}
+		if b, ok := best[o.K]; !ok || d.seq >= b.seq {
+			best[o.K] = d
+		}
+		out[o.K] = append(out[o.K], pans{step, best[o.K]})
+	}
+	return out
+}
+
+// checkPoolGetConc: the answer must be the model's for some prefix of the
+// history between lo and hi.
+func checkPoolGetConc(ans []pans, k int, val []byte, found bool, lo, hi int) *viol {
+	match := func(d desc) bool {
+		return found && d.del == (val == nil) && (d.del || d.val == string(val))
+	}
+	first := sort.Search(len(ans), func(i int) bool { return ans[i].step > lo }) // writes after lo
+	if first == 0 {
+		if !found {
+			return nil
+		}
+	} else if match(ans[first-1].d) {
+		return nil
+	}
+	for i := first; i < len(ans) && ans[i].step <= hi; i++ {
+		if match(ans[i].d) {
+			return nil
+		}
+	}
+	switch {
+	case !found:
+		return &viol{"pool-get/not-found", fmt.Sprintf("k%d not found although a write to it completed before the call; expected %v", k, ans[first-1].d)}
+	case first == 0 && (len(ans) == 0 || ans[0].step > hi):
+		return &viol{"pool-get/phantom", fmt.Sprintf("k%d found (val=%x nil=%v) but not written yet", k, val, val == nil)}
+	}
+	exp := "nothing"
+	if first > 0 {
+		exp = ans[first-1].d.String()
+	}
+	for i := 0; i < first-1; i++ {
+		if match(ans[i].d) {
+			return &viol{"pool-get/stale", fmt.Sprintf("k%d: pool returned the superseded %v, expected %s (or a later write up to step %d)", k, ans[i].d, exp, hi)}
+		}
+	}
+	return &viol{"pool-get/wrong-value", fmt.Sprintf("k%d: pool returned val=%x nil=%v, expected %s (or a later write up to step %d)", k, val, val == nil, exp, hi)}
+}
+
+func runConcPool(c *CCase) (*CFail, cstats) {
+	var st cstats
+	ans := poolAnswers(c)
+	total := len(c.W)
+	pool := memtable.NewMemTablePool(config.NewDefaultConfig("/nonexistent-c18"))
+	var counter atomic.Int64
+	var done, stop atomic.Bool
+	start := make(chan struct{})
+	var wg sync.WaitGroup
+	fails := make([]*CFail, len(c.R))
+	overlap := make([]int, len(c.R))
+	overl := make([]int, len(c.R))
+	nact := make([]int, len(c.R))
+	switches := 0
+	apply := func(i int) {
+		o := &c.W[i]
+		switch o.Op {
+		case "switch":
+			pool.SwitchToNewMemTable()
+			switches++
+		case "del":
+			pool.Delete(c.Keys[o.K], o.Seq)
+		default:
+			pool.Put(c.Keys[o.K], valueBytes(i+1, o.VL), o.Seq)
+		}
+		counter.Store(int64(i + 1))
+	}
+	for i := 0; i < c.Prefill; i++ {
+		apply(i)
+	}
+	wg.Add(1)
+	go func() {
+		defer wg.Done()
+		defer done.Store(true)
+		<-start
+		for i := c.Prefill; i < len(c.W); i++ {
+			if stop.Load() {
+				return
+			}
+			apply(i)
+			if c.Burst > 0 && (i+1)%c.Burst == 0 {
+				runtime.Gosched()
+			}
+		}
+	}()
+	for ri := range c.R {
+		wg.Add(1)
+		go func(ri int) {
+			defer wg.Done()
+			pat := c.R[ri]
+			<-start
+			first := -1
+			for i := 0; ; i++ {
+				a := pat[i%len(pat)]
+				for y := 0; y < a.Y; y++ {
+					runtime.Gosched()
+				}
+				wasDone := done.Load()
+				lo := int(counter.Load())
+				if first < 0 {
+					first = lo
+				}
+				overlap[ri] = lo - first
+				nact[ri]++
+				if !wasDone {
+					overl[ri]++
+				}
+				var f *CFail
+				if a.A == "pget" {
+					val, found := pool.Get(c.Keys[a.K])
+					hi := int(counter.Load()) + 1
+					if x := checkPoolGetConc(ans[a.K], a.K, val, found, lo, hi); x != nil {
+						f = &CFail{V: x, Reader: ri, Act: a, Get: &getObs{K: a.K, Found: found, Val: val, Lo: lo, Hi: hi, Mutable: true, Op: "pool-get"}}
+					}
+				} else {
+					if n := pool.ImmutableCount(); n < 0 || n > total {
+						f = &CFail{V: &viol{"pool-tables/immutable-count", fmt.Sprintf("ImmutableCount()=%d", n)}, Reader: ri, Act: a}
+					}
+					_ = pool.IsFlushNeeded()
+					_ = pool.TotalSize()
+					_ = len(pool.GetMemTables())
+				}
+				if f != nil {
+					f.V.Sig = "conc/" + f.V.Sig
+					f.V.Msg = fmt.Sprintf("reader %d, action %d (%s), lower bound=step %d of %d: %s", ri, i, a.A, lo, total, f.V.Msg)
+					fails[ri] = f
+					stop.Store(true)
+					return
+				}
+				if stop.Load() || (wasDone && i >= len(pat)-1) {
+					return
+				}
+			}
+		}(ri)
+	}
+	close(start)
+	wg.Wait()
+	var fail *CFail
+	for ri := range c.R {
+		if fails[ri] != nil && fail == nil {
+			fail = fails[ri]
+		}
+		if overlap[ri] > st.maxOverlap {
+			st.maxOverlap = overlap[ri]
+		}
+		st.overlapping += overl[ri]
+		st.actions += nact[ri]
 	}
 	return fail, st
 }
